@@ -372,19 +372,42 @@ def dir2_descs(tier, workers=None):
     return r.cases, r
 
 
+def big_descs(tier, workers=None):
+    """Large periodic inputs (recurrence distance around the offset limits / 16-bit position tables)."""
+    if tier == "quick":
+        consts = ('Codecs = {"snappy", "lz4"}\nSnappyPeriods = {32767, 32768, 32769, 65535, 65536, 65537, 131072}\n'
+                  'Lz4Periods = {65534, 65535, 65536, 65537}\nReps = {2}\nCycles = {20480}')
+    else:
+        consts = ('Codecs = {"snappy", "lz4"}\nSnappyPeriods = {16384, 32767, 32768, 32769, 65535, 65536, 65537, 131071, 131072, 131073}\n'
+                  'Lz4Periods = {32768, 65534, 65535, 65536, 65537, 131072}\nReps = {2, 3}\nCycles = {16385, 20480, 40000}')
+    r = cl.tlc_gen("MC_CodecBig", consts, what="MC_CodecBig", workers=workers)
+    return r.cases, r
+
+
 def rec_lines(cases):
     return ["r%d rec %s 0 %s" % (i, c["codec"], desc_str(c["desc"])) for i, c in enumerate(cases)]
 
 
-def validate(fmt, recs, what, chunk=3000, workers=None):
-    """recs: list of (id, xhex, chex). Returns ({id: verdict} from TLC, [TlcResult])."""
+def validate(fmt, recs, what, chunk=3000, workers=None, max_bytes=6000000):
+    """recs: list of (id, xhex, chex). Returns ({id: verdict} from TLC, [TlcResult]).
+    Chunks are bounded in count and in bytes (large inputs get chunks of their own)."""
     mod = "MC_SnappyTrace" if fmt == "snappy" else "MC_Lz4Trace"
     verd, rs = {}, []
-    for k in range(0, len(recs), chunk):
-        objs = [{"id": rid, "x": list(common.unhex(x)), "c": list(common.unhex(c))} for rid, x, c in recs[k:k + chunk]]
+    chunks, cur, size = [], [], 0
+    for rec in sorted(recs, key=lambda r: len(r[1])):
+        sz = (len(rec[1]) + len(rec[2])) // 2
+        if cur and (len(cur) >= chunk or size + sz > max_bytes):
+            chunks.append(cur)
+            cur, size = [], 0
+        cur.append(rec)
+        size += sz
+    if cur:
+        chunks.append(cur)
+    for part in chunks:
+        objs = [{"id": rid, "x": list(common.unhex(x)), "c": list(common.unhex(c))} for rid, x, c in part]
         path = cl.write_ndjson(objs)
         try:
-            r = cl.tlc_gen(mod, "Group = 8", env={"CASES": path}, what=what, workers=workers)
+            r = cl.tlc_gen(mod, "Group = %d" % (8 if len(part) > 64 else 1), env={"CASES": path}, what=what, workers=workers)
         finally:
             os.unlink(path)
         rs.append(r)
@@ -451,7 +474,8 @@ def dir2(chk, cases, rres, rfaults, res, faults, leaky):
                 chk.sample({"fmt": fmt, "input_desc": desc_str(c["desc"]), "block": cx[:160], "verdict": v["v"], "tokens": st})
             if v["v"] == "ok":
                 continue
-            rep = {"fmt": fmt, "desc": desc_str(c["desc"]), "x": x, "block": cx, "verdict": v}
+            rep = {"fmt": fmt, "desc": desc_str(c["desc"]), "x": x if len(x) <= 16384 else x[:256] + "...", "block": cx if len(cx) <= 16384 else cx[:256] + "...",
+                   "verdict": v}
             if v["v"] == "invalid-block":
                 chk.violation("%s:invalid-block:%s" % (enc, v["why"]), "%s compress of %s produced a block the format defines as invalid (%s): %s" % (
                     fmt, desc_str(c["desc"]), v["why"], cx[:200]), rep)
@@ -524,6 +548,7 @@ def run(chk, tier, replay):
         "bytes-snappy": lambda: bytes_cases("snappy", tier, workers=W),
         "bytes-lz4": lambda: bytes_cases("lz4", tier, workers=W),
         "descs": lambda: dir2_descs(tier, workers=W),
+        "big": lambda: big_descs(tier, workers=W),
         "pagecodec": lambda: pagecodec_cases(tier, workers=W)})
     for r in gen["self"]:
         chk.add_tlc(r)
@@ -534,8 +559,10 @@ def run(chk, tier, replay):
             chk.add_tlc(r)
         chk.add_tlc(gen["bytes-" + fmt][1])
         lines += dir1_lines(fmt, gen["gen-" + fmt][0]) + bytes_lines(fmt, gen["bytes-" + fmt][0])
-    descs = gen["descs"][0]
+    descs = gen["descs"][0] + gen["big"][0]
     chk.add_tlc(gen["descs"][1])
+    chk.add_tlc(gen["big"][1])
+    chk.part("large-inputs", cases=len(gen["big"][0]), max_bytes=max([c["n"] for c in gen["big"][0]] or [0]))
     lines += rec_lines(descs)
     pcases = gen["pagecodec"][0]
     chk.add_tlc(gen["pagecodec"][1])
